@@ -35,6 +35,9 @@ def opt_sets():
         # ... with the API-only option persist_inspection_links=False at the top: what is checked below does not depend on it
         {"p_sub": 0.7, "max_depth": 2, "insp_fail": True, "vary_keys": False, "deviate": False, "persist": False,
          "link_variants": ["honest"], "sub_variants": ["honest"]},
+        # sublayouts whose expiry lies within a day of the (fixed) clock, either side, verified in varying process time zones
+        {"p_sub": 0.7, "max_depth": 2, "near_expiry": True, "vary_keys": False, "deviate": False,
+         "link_variants": ["honest"], "sub_variants": ["honest"]},
         {"p_sub": 0.6, "max_depth": 2, "format": "mb", "sub_variants": SUB_BAD, "insp_fail": True},
         {"p_sub": 0.6, "max_depth": 2, "format": "dsse", "sub_variants": SUB_BAD, "rule_violation": True},
         # empty sublayouts (no steps): the empty summary link
@@ -139,11 +142,57 @@ class CallSpy:
         self.vl.in_toto_verify = self.orig
 
 
+def _k(i):
+    from harness import keys as hk
+    return hk.sslib_key("ed25519", i)
+
+
+def pin_twin(bad, dsse):
+    """two functionaries of ONE step delegate with byte-identical sublayout content (each signs its own copy); the first
+    one's sub-directory is complete, the second one's is [bad]: every delegation is verified against its own directory"""
+    def fn(env, wd):
+        import copy as _copy
+        p, sub = vscen.Pin(env), vscen.Pin(env)
+        kA, kB, kC = _k(0), _k(1), _k(2)
+        M, P = sub.art("src/a.c"), sub.art("out/a.o")
+        sub.store({kC.keyid: kC.pub})
+        sub.step("compile", [kC.keyid], ep=[["ALLOW", "out/a.o"], ["DISALLOW", "*"]])
+        sub.link("compile", kC.keyid, kC, M, P, dsse=dsse)
+        p.store({kA.keyid: kA.pub, kB.keyid: kB.pub})
+        p.step("build", [kA.keyid, kB.keyid], threshold=2)
+        p.sublayout("build", kA.keyid, sub, kA, dsse=dsse)
+        good_dir = _copy.deepcopy(p.dirs["build.%s" % kA.keyid[:8]])
+        p.sublayout("build", kB.keyid, sub, kB, dsse=dsse, with_dir=False)
+        dB = "build.%s" % kB.keyid[:8]
+        expect = "accept"
+        if bad == "complete":
+            p.dirs[dB] = good_dir
+        elif bad == "missing_dir":
+            expect = "LinkNotFoundError"
+        elif bad == "links_in_parent":
+            for fn_, v in good_dir["files"].items():
+                p.files[fn_] = v
+            expect = "LinkNotFoundError"
+        elif bad == "other_products":
+            sub2 = vscen.Pin(env)
+            sub2.link("compile", kC.keyid, kC, M, sub2.art("out/a.o", "out/evil.o"), dsse=dsse)
+            p.dirs[dB] = sub2.tree()
+            expect = "RuleVerificationError"
+        return p.scenario(_k(5), wd, tags=["sublayout:honest", "twin_sublayouts:" + bad], dsse=dsse, expect=expect)
+    return fn
+
+
+PINNED = [("twin:%s:%s" % (bad, "dsse" if d else "metablock"), pin_twin(bad, d))
+          for d in (False, True) for bad in ("complete", "missing_dir", "links_in_parent", "other_products")]
+
+
 def run(ctx):
     n = 3500 if ctx.thorough() else 330
     core.check_props(ctx, PROPS)
     sublay_tie.run(ctx, 'Tie/C06.v')
     fams = ("ed25519", "rsa", "ecdsa") if ctx.thorough() else ("ed25519",)
+    pinned, _, _pm = vscen.run_all(ctx, [], 0, pinned=PINNED)
+    pin_summary = vscen.check_expectations(ctx, pinned, vcore.replay_file)
     with CallSpy() as spy:
         recs, model = vcore.run_scenarios(ctx, opt_sets(), n, families=fams)
     for idx, what in spy.problems[:3]:
@@ -153,7 +202,7 @@ def run(ctx):
     return vcore.report(
         ctx, "C06", recs, model, PROPS,
         "in_toto_verify disagrees with the model on a scenario with delegated steps",
-        relevant=relevant, extra_cov={"delegation": dist(recs), "recursive_calls_observed": spy.nested,
+        relevant=relevant, extra_cov={"delegation": dist(recs), "pinned": pin_summary, "recursive_calls_observed": spy.nested,
                                       "recursive_call_argument_problems": len(spy.problems)},
         assumptions=["theorems about Model/Verify.v (verify = structural fixpoint over the link-directory tree); "
                      "tie: differential run of in_toto_verify on generated nested supply chains with bad sublayouts of every "
